@@ -3168,12 +3168,12 @@ class RomanNumeral(Harmony):
             The number of the chord.
         """
         # Corrected step after degree2
-        key_step = re.search(r"[a-gA-G]", self.local_key).group(0)
-        key_alter = (
-            re.search(r"[#b]", self.local_key).group(0)
-            if re.search(r"[#b]", self.local_key)
-            else ""
-        )
+        key_match = re.search(r"[a-gA-G]", self.local_key)
+        key_step = key_match.group(0)
+        # the accidental follows the step letter (the "b" of B minor is the
+        # step, not a flat)
+        key_alter = re.search(r"[#b]", self.local_key[key_match.end() :])
+        key_alter = key_alter.group(0) if key_alter else ""
         key_alter = ALT_TO_INT[key_alter]
         try:
             interval = (
@@ -6321,10 +6321,12 @@ def process_local_key(loc_k, glob_k, return_step_alter=False):
     transposition_interval = transposition_interval.change_quality(
         local_key_sharps - local_key_flats
     )
-    key_step = re.search(r"[a-gA-G]", glob_k).group(0)
-    key_alter = (
-        re.search(r"[#b]", glob_k).group(0) if re.search(r"[#b]", glob_k) else ""
-    )
+    key_match = re.search(r"[a-gA-G]", glob_k)
+    key_step = key_match.group(0)
+    # the accidental follows the step letter (the "b" of B minor is the step,
+    # not a flat)
+    key_alter = re.search(r"[#b]", glob_k[key_match.end() :])
+    key_alter = key_alter.group(0) if key_alter else ""
     key_alter = key_alter.replace("b", "-")
     key_alter = ALT_TO_INT[key_alter]
     key_step, key_alter = transpose_note(key_step, key_alter, transposition_interval)
